@@ -98,6 +98,13 @@ func (g *Gen) buildGenesis() *GenesisDoc {
 	if r.Chance(0.4) {
 		b.Add(&basev1.CreditType{Abbreviation: "KSH", Name: "kilo-sheep-hour", Unit: "ksh", Precision: 6})
 	}
+	if r.Chance(0.3) {
+		// abbreviations that are string prefixes of one another
+		b.Add(&basev1.CreditType{Abbreviation: "CA", Name: "carbon-avoided", Unit: "t", Precision: 6})
+		if r.Chance(0.5) {
+			b.Add(&basev1.CreditType{Abbreviation: "B", Name: "bees", Unit: "hive", Precision: 6})
+		}
+	}
 	zeroFees := g.P.GenesisK == "zerofee"
 	if f := Pick(r, classFeeChoices); f != nil {
 		b.Singleton(&basev1.ClassFee{Fee: coinPB(f.denom, f.amt)})
